@@ -295,11 +295,28 @@ def chk_roundtrip_ber(T, v, M):
     return out, n
 
 
+def untagged_any_in_ber_form(T, v):
+    k = T['k']
+    if k == 'ANY':
+        return not T['tags'] and isinstance(v, (bytes, bytearray)) and len(v) > 1 and v[1] == 0x80
+    if k in ('SEQUENCE', 'SET') and isinstance(v, dict):
+        return any(untagged_any_in_ber_form(ft, v[n_]) for n_, ft, m_ in T['fields'] if n_ in v)
+    if k in ('SEQUENCEOF', 'SETOF'):
+        return any(untagged_any_in_ber_form(T['elem'], x) for x in v)
+    if k == 'CHOICE':
+        return not T['tags'] and untagged_any_in_ber_form(x690.field_type(T, v[0]), v[1])
+    return False
+
+
 def chk_roundtrip_canon(T, v, M):
     """C02: DER -> {DER,CER,BER} decoders, CER -> {CER,BER}; all agree with the value.  The canonical encoders are also
     called with caller-supplied modes: whatever they emit then is "the DER/CER encoding" a user gets."""
     be, bd, ce, cd, de, dd, error, bridge = M
     out, n = [], 0
+    if untagged_any_in_ber_form(T, v):
+        # the contents of an untagged ANY are the element itself: when they are not canonical, the value has no DER / CER
+        # encoding to round-trip (the canonical decoders rightly refuse the indefinite length inside)
+        return out, n
     want = x690.norm(T, v)
     spec = bridge.to_type(T)
     val = bridge.to_value(T, v, spec)
